@@ -2,6 +2,8 @@
 
 package gbn
 
+import "time"
+
 // Verification hooks: exported wrappers around unexported pure functions and
 // a read-only snapshot of the window bookkeeping. Compiled only with
 // `-tags verif`; nothing here changes the behaviour of the package.
@@ -96,4 +98,10 @@ func (g *GoBackNConn) VerifStopPongTicker() {
 	if g.pongTicker != nil {
 		g.pongTicker.Stop()
 	}
+}
+
+// VerifResendTimeout returns the resend timeout the connection's timeout
+// manager currently reports.
+func (g *GoBackNConn) VerifResendTimeout() time.Duration {
+	return g.timeoutManager.GetResendTimeout()
 }
